@@ -95,7 +95,29 @@ func UFBytes(name string, in []byte, n int) []byte {
 }
 func MaxAlloc() int          { return 0 }
 func ResetAlloc()            {}
-func Held(mu any) bool       { panic(stop{"unsupported: Held in native replay"}) }
+
+// Held natively: a lock that cannot be taken right now is held (replays are single-threaded).
+func Held(mu any) bool {
+	switch m := mu.(type) {
+	case *sync.Mutex:
+		if m.TryLock() {
+			m.Unlock()
+			return false
+		}
+		return true
+	case *sync.RWMutex:
+		if m.TryLock() {
+			m.Unlock()
+			return false
+		}
+		return true
+	}
+	panic(stop{"unsupported: Held on this lock type in native replay"})
+}
+
+// ReplaceSym replaces a function only in the symbolic run; natively the real function runs.
+func ReplaceSym(target string, fn any) {}
+
 func Guard(obj any, mu any)  {}
 func Go(f func())            { panic(stop{"unsupported: scheduled goroutines in native replay"}) }
 func Yield()                 {}
@@ -105,8 +127,15 @@ func Note(s string)          {}
 func Split()                 {}
 func IsComparable(v any) bool { return true }
 func AsAssign(err error, target any) bool { return false }
-func GhostGet(obj any, key string) int    { return 0 }
-func GhostSet(obj any, key string, v int) {}
+var ghost = map[any]map[string]int{}
+
+func GhostGet(obj any, key string) int { return ghost[obj][key] }
+func GhostSet(obj any, key string, v int) {
+	if ghost[obj] == nil {
+		ghost[obj] = map[string]int{}
+	}
+	ghost[obj][key] = v
+}
 
 type RuntimeError struct{ Msg string }
 
